@@ -440,13 +440,13 @@ pub fn cells() -> Vec<Cell>
 	// reads a view and compares with literals (what the analyzer learned there must not carry over)
 	let with_history: Vec<Cell> = out
 		.iter()
-		.map(|c| Cell { what: format!("{} [behind a function that writes through its pointer parameter]", c.what), class: format!("{}:behind a writing function", c.class), text: c.text.replacen(PRELUDE, &format!("{PRELUDE}{EARLIER}"), 1), expect: c.expect.clone(), after: c.after, has_ampersand: c.has_ampersand })
+		.map(|c| Cell { what: format!("{} [behind two function heads and a function that writes through its pointer parameter]", c.what), class: format!("{}:behind a writing function", c.class), text: c.text.replacen(PRELUDE, &format!("{PRELUDE}{EARLIER}"), 1), expect: c.expect.clone(), after: c.after, has_ampersand: c.has_ampersand })
 		.collect();
 	out.extend(with_history);
 	out
 }
 
-const EARLIER: &str = "fn earlier(e: &i32, v: []i32, z: &S) -> i32\n{\n\te = 3;\n\tif v[0] == 1\n\t{\n\t\te = 4;\n\t\tz.a = 5;\n\t}\n\telse if 2i32 == v[1]\n\t{\n\t\tz.b = e;\n\t}\n\treturn: v[0]\n}\n";
+const EARLIER: &str = "fn head_only(data: []i32, q: S, k: i32) -> i32;\nextern fn ext_head(k: i32, p: &i32);\nfn earlier(e: &i32, v: []i32, z: &S) -> i32\n{\n\te = 3;\n\tif v[0] == 1\n\t{\n\t\te = 4;\n\t\tz.a = 5;\n\t}\n\telse if 2i32 == v[1]\n\t{\n\t\tz.b = e;\n\t}\n\treturn: v[0]\n}\n";
 
 /// Expression contexts in which a call (returning i32) can stand.
 const CALL_CONTEXTS: [(&str, &str); 6] = [
